@@ -268,8 +268,11 @@ func (r *router) Group(routePath string, fn func(), handlers ...Handler) {
 			handlers: handlers,
 		},
 	)
+	// NOTE: Leave the group even when fn panics (a registration inside the group
+	// was refused), otherwise a caller that recovers keeps registering under the
+	// path and the handlers of a group it has long left.
+	defer func() { r.groups = r.groups[:len(r.groups)-1] }()
 	fn()
-	r.groups = r.groups[:len(r.groups)-1]
 }
 
 func (r *router) Get(routePath string, handlers ...Handler) *Route {
